@@ -821,7 +821,10 @@ class Engine:
                     return m
         for cand in (r, f):
             if cand is f and f.get('trait') and not r:
-                continue        # unresolved trait method call: a provided body is only a default
+                # unresolved trait method call: a provided body is only a default, unless nobody can override it
+                from . import inline as _inl
+                if not _inl._sole_body(self.prog.facts, f):
+                    continue
             if cand and cand.get('local') and cand.get('dp') in self.by_dp:
                 return self.by_dp[cand['dp']]
         return None
